@@ -30,8 +30,9 @@ def model (f : List String) : String :=
       let steps := if adaptor = "e" then enumerateSteps l.length
         else if adaptor = "ep" then enumeratePostSteps l.length else reverseSteps l.length
       -- "ek": the proxies are kept while the iterator walks on and read afterwards: the same pairs
-      answer (if adaptor = "ep" || adaptor = "ek" then "e" else if adaptor = "rm" then "r" else adaptor) (write = "1") l
-        (if adaptor = "ek" then enumerateSteps l.length else steps)
+      -- "ec": the pair is bound to a const reference: the same pairs
+      answer (if adaptor = "ep" || adaptor = "ek" || adaptor = "ec" then "e" else if adaptor = "rm" then "r" else adaptor)
+        (write = "1") l (if adaptor = "ek" || adaptor = "ec" then enumerateSteps l.length else steps)
     | none => "bad-op"
   | _ => "bad-op"
 
@@ -42,7 +43,7 @@ def judge (f : List String) (ans : String) : String :=
   | [adaptor, kind, cat, write, vals] =>
     match ints? vals with
     | some l =>
-      let expSeen := if adaptor = "e" || adaptor = "ep" || adaptor = "ek" then
+      let expSeen := if adaptor = "e" || adaptor = "ep" || adaptor = "ek" || adaptor = "ec" then
           seenStr true ((List.range l.length).zip (l.map some))
         else if adaptor = "er" then seenStr true ((List.range l.length).zip (l.reverse.map some))
         else seenStr false (l.reverse.map fun v => (0, some v))
